@@ -22,7 +22,7 @@ func init() {
 		"non-trivial = history with at least one update after construction and a non-empty eligible set at some point; distinct = distinct history line",
 		runC11)
 	register("c12", "round-robin and weighted round-robin: all weight vectors n<=4, weights<=6 (thorough; sampled in quick) plus random larger vectors; "+
-		"3*T selections per selector, every window offset checked for exact counts and periodicity; equal weights compared with plain round-robin; "+
+		"weights embedded among keys whose names end in or start with 'weight'; 3*T selections per selector, every window offset checked for exact counts and periodicity; equal weights compared with plain round-robin; "+
 		"updates changing membership or weights (also a second update that passes the same map instance, edited in place), windows checked from the first selection after the update; every run replayed on the Lean model; "+
 		"non-trivial = at least two servers; distinct = distinct weight history",
 		runC12)
@@ -72,6 +72,7 @@ var weightMetas = []string{
 	"", "weight=1", "weight=2", "weight=3", "weight=5", "weight=7", "weight=0", "weight=-1", "weight=-3", "weight=40",
 	"weight=abc", "weight=", "weight=3&weight=9", "weight=+4", "weight= 5", "weight=2;x=1", "weight=%zz", "state=active&weight=6",
 	"group=a&weight=2&group=b", "weight=1.5", "weight=0x10", "weight=00002", "Weight=9", "tps=5",
+	"icmp_weight=0&weight=3", "xweight=-1&weight=2", "lowweight=7", "weight_class=4&weight=0", "myweight=5&weight=abc",
 }
 
 var geoMetas = []string{
@@ -324,7 +325,17 @@ func c11History(o *Out, r *rand.Rand, sm selMode) {
 func weightsMap(ws []int) map[string]string {
 	m := map[string]string{}
 	for i, w := range ws {
-		m[fmt.Sprintf("tcp@s%d:1", i)] = fmt.Sprintf("weight=%d", w)
+		// the weight sits among other keys, some of whose NAMES end in "weight" or start with it
+		meta := fmt.Sprintf("weight=%d", w)
+		switch (i + len(ws)) % 4 {
+		case 1:
+			meta = fmt.Sprintf("group=g1&icmp_weight=%d&weight=%d&weight_class=7", w+3, w)
+		case 2:
+			meta = fmt.Sprintf("lowweight=9&state=active&weight=%d", w)
+		case 3:
+			meta = fmt.Sprintf("weight=%d&xweight=%d", w, w+5)
+		}
+		m[fmt.Sprintf("tcp@s%d:1", i)] = meta
 	}
 	return m
 }
